@@ -1,7 +1,8 @@
 """C30 — Every lookup service ends up with the latest published address data (DESIGN.md §6 C30).
 
 Spec: specs/lookup/AddrLookupPub.tla — AddressLookupServices::{publish, add_boxed, clear} with one
-action per critical section (PubBegin / PubGive / PubStore, AddRead / AddPush, Clear), split
+action per critical section (PubFilter / PubBegin / PubGive / PubStore, AddRead / AddPush, Clear,
+SetFilter), split
 where the code takes and releases its RwLocks.  TLC proves the property (`AllHaveLatest`,
 `LastDataIsLatest`) for the required design (`Serialized = TRUE`: one lock around each whole
 operation) and refutes it for the step structure of the code as written (`Serialized = FALSE`).
@@ -46,21 +47,22 @@ META = {
             "latest published (filtered) data, and that the code's actual step order does not guarantee it.  Every interleaving "
             "of the sub-steps of concurrent publish(d1), publish(d2), add(service) (and clear) is then executed on the real "
             "object by parking threads at pause points, and TLC evaluates the property on each observed final state.",
-    "note": "Bounded: <= 3 publishers, <= 2 adders, <= 2 initial services, optional clear().  'Latest' = the publish whose "
-            "last_data store came last (observed as what a service added at quiescence is given).  The address filter is "
-            "installed before the threads start (set_addr_filter is not an actor).  Blocked-actor detection reads the "
-            "thread state from /proc (Linux).",
+    "note": "Bounded: <= 3 publishers, <= 2 adders, <= 2 initial services, optional clear() and set_addr_filter() callers.  "
+            "'Latest' = the publish whose last_data store came last (observed as what a service added at quiescence is "
+            "given), with the filter that publish read.  Blocked-actor detection reads the thread state from /proc (Linux).",
     "design_ref": "§6 C30, Appendix A.3",
 }
 
-# (Pubs, NewSvcs, Clears, NInit, FilterOn)
-QUICK = [(("d1", "d2"), ("n1",), (), 1, True),
-         (("d1",), ("n1", "n2"), (), 0, False)]
-THOROUGH = QUICK + [(("d1", "d2"), ("n1",), ("c1",), 2, True),          # 1 762 words
-                    (("d1", "d2", "d3"), (), (), 1, False),             # 1 680 words
-                    (("d1", "d2"), ("n1", "n2"), (), 1, True),          # 5 896 words: sampled (-simulate, seeded)
-                    (("d1", "d2", "d3"), ("n1",), (), 1, False)]        # 52 750 words: sampled
-SAMPLED = {4: 400, 5: 400}                                               # config index -> number of simulated behaviours
+# (Pubs, NewSvcs, Clears, NInit, FilterOn, Setters)
+QUICK = [(("d1", "d2"), ("n1",), (), 1, True, ()),
+         (("d1",), ("n1", "n2"), (), 0, False, ()),
+         (("d1",), ("n1",), (), 1, False, ("f1",))]                        # set_addr_filter concurrent with publish / add: 59 words
+THOROUGH = QUICK + [(("d1", "d2"), ("n1",), ("c1",), 2, True, ()),          # 1 762 words
+                    (("d1", "d2"), ("n1",), (), 2, False, ()),              # two initial services
+                    (("d1", "d2"), ("n1", "n2"), (), 1, True, ()),          # 5 896 words: sampled (-simulate, seeded)
+                    (("d1", "d2", "d3"), ("n1",), (), 1, False, ()),        # 52 750 words: sampled
+                    (("d1", "d2"), ("n1",), (), 1, False, ("f1",))]         # sampled
+SAMPLED = {5: 400, 6: 400, 7: 400}                                          # config index -> number of simulated behaviours
 
 
 def tla_set(xs):
@@ -68,8 +70,8 @@ def tla_set(xs):
 
 
 def consts(cfg, serialized):
-    pubs, news, clears, ninit, filt = cfg
-    return {"Pubs": tla_set(pubs), "NewSvcs": tla_set(news), "Clears": tla_set(clears), "NInit": ninit,
+    pubs, news, clears, ninit, filt, setters = cfg
+    return {"Pubs": tla_set(pubs), "NewSvcs": tla_set(news), "Clears": tla_set(clears), "Setters": tla_set(setters), "NInit": ninit,
             "FilterOn": "TRUE" if filt else "FALSE", "Serialized": "TRUE" if serialized else "FALSE"}
 
 
@@ -96,10 +98,11 @@ def schedule_class(cfg, word):
 
 
 def run_config(ctx, cfg, idx):
-    pubs, news, clears, ninit, filt = cfg
+    pubs, news, clears, ninit, filt, setters = cfg
     # 1. required design holds, as-written step order is refuted
-    acts = ["PubBegin", "PubGive", "PubStore", "AddRead", "AddPush"] + (["Clear"] if clears else [])
-    sfx = "_clear.cfg" if clears else ".cfg"
+    acts = ["PubBegin", "PubGive", "PubStore", "AddRead", "AddPush"] + (["Clear"] if clears else []) \
+        + (["PubFilter", "SetFilter"] if setters else [])
+    sfx = "_clear.cfg" if clears else "_filter.cfg" if setters else ".cfg"
     ctx.tlc("lookup", "AddrLookupPub", cfg="AddrLookupPub" + sfx, mode="mc", workers=4, constants=consts(cfg, True), timeout=1200,
             require_actions=[a for a in acts if not (a == "PubGive" and ninit == 0 and not news)])
     if len(pubs) >= 2 or (pubs and news):
@@ -124,17 +127,17 @@ def run_config(ctx, cfg, idx):
         raise ToolError("TLC printed no words for %s" % (cfg,))
     init = ["s0", "s1", "s2"][:ninit]
     cases = [{"case": idx * 100000 + i, "init_svcs": init, "pubs": list(pubs), "adders": list(news), "clears": list(clears),
-              "filter": filt, "word": w["word"]} for i, w in enumerate(words)]
+              "setters": list(setters), "filter": filt, "word": w["word"]} for i, w in enumerate(words)]
     # thorough: the same actors running freely (no step is forced; whatever interleaving the scheduler produces is judged)
     nfree = ctx.pick(0, 40)
     words = list(words) + [None] * nfree
     cases += [{"case": idx * 100000 + 50000 + i, "init_svcs": init, "pubs": list(pubs), "adders": list(news),
-               "clears": list(clears), "filter": filt, "word": []} for i in range(nfree)]
+               "clears": list(clears), "setters": list(setters), "filter": filt, "word": []} for i in range(nfree)]
     return words, cases
 
 
 def judge_config(ctx, cfg, words, cases, obs, tag):
-    pubs, news, clears, ninit, filt = cfg
+    pubs, news, clears, ninit, filt, setters = cfg
     for c, o in zip(cases, obs):
         if o.get("panic"):
             ctx.report({"wrong": "panic"}, "case %d: %s" % (c["case"], o["panic"]), {"cfg": cfg, "case": c, "observed": o})
@@ -153,8 +156,8 @@ def judge_config(ctx, cfg, words, cases, obs, tag):
         if line.startswith('<<"VERDICT"'):
             parts = [p.strip() for p in line.strip("<>").split(",")]
             k = int(parts[1])
-            holds[k] = holds.get(k, False) or parts[3] == "TRUE"
-            published[k] = parts[4] == "TRUE"
+            holds[k] = holds.get(k, False) or parts[4] == "TRUE"
+            published[k] = parts[5] == "TRUE"
     if len(holds) != len(ok):
         raise ToolError("judge returned %d verdicts for %d observations:\n%s" % (len(holds), len(ok), res.out[-2000:]))
     nblocked = 0
@@ -163,7 +166,7 @@ def judge_config(ctx, cfg, words, cases, obs, tag):
         add_race, overlap = (len(news) > 0, len(pubs) > 1) if free else schedule_class(cfg, c["word"])
         forced_all = (not free) and o["blocked"] is None and o["forced"] == len(c["word"])
         nblocked += 0 if (forced_all or free) else 1
-        ctx.count(case_key=[list(pubs), list(news), list(clears), ninit, filt, [[s["a"], s["step"]] for s in c["word"]]],
+        ctx.count(case_key=[list(pubs), list(news), list(clears), list(setters), ninit, filt, [[s["a"], s["step"]] for s in c["word"]]],
                   nontrivial=True)
         replay = {"cfg": cfg, "case": c, "observed": o,
                   "model": None if free else {"services": w["services"], "got": w["got"], "last": w["last"], "holds": w["holds"]}}
@@ -231,7 +234,7 @@ def selftest(ctx, cfg, good, tag):
     for line in res.printed:
         if line.startswith('<<"VERDICT"'):
             parts = [p.strip() for p in line.strip("<>").split(",")]
-            if parts[3] == "TRUE":
+            if parts[4] == "TRUE":
                 accepted.add(int(parts[1]))
     if accepted:
         raise ToolError("binding self-test: corrupted observations %s were accepted by the judge" % sorted(accepted))
